@@ -61,7 +61,8 @@ type Config struct {
 }
 
 func checkConfig(cfg Config) error {
-	if cfg.ModifyResponseProbability <= 0 || cfg.ModifyResponseProbability > 1 {
+	// Written as a negated range check so that NaN (".nan" in YAML) is refused too.
+	if !(cfg.ModifyResponseProbability > 0 && cfg.ModifyResponseProbability <= 1) {
 		return ErrInvalidModifyResponseProbability
 	}
 
